@@ -32,7 +32,7 @@ bool prop_run(Tape &t, Report &r) {
   // ---- damage to the physical stream
   int ndmg = 1 + t.weighted({4, 3, 2, 1}); if (t.chance(1, 4)) ndmg = 0; bool refix = !t.chance(1, 5);
   for (int di = 0; di < ndmg; di++) {
-    std::vector<Span> pg = find_pages(bytes); int kind = t.weighted({3, 2, 2, 3, 2, 2, 2, 2, 1, 2});
+    std::vector<Span> pg = find_pages(bytes); int kind = g_tape_gen >= 4 ? t.weighted({3, 2, 2, 3, 2, 2, 2, 2, 1, 2, 2, 1}) : t.weighted({3, 2, 2, 3, 2, 2, 2, 2, 1, 2});
     auto pick = [&]() -> Span * { return pg.empty() ? nullptr : &pg[t.spread((uint32_t)pg.size())]; };
     switch (kind) {
       case 0: { Span *p = pick(); if (p) { bytes.erase(bytes.begin() + p->off, bytes.begin() + p->off + p->len); md += "drop page; "; } } break;
@@ -49,6 +49,12 @@ bool prop_run(Tape &t, Report &r) {
       case 6: { Bulk rb(t.raw() | 1); size_t at = pg.empty() ? 0 : pg[t.spread((uint32_t)pg.size())].off; size_t n = 1 + rb.below(t.chance(1, 4) ? 70000 : 600); std::vector<uint8_t> junk(n); for (auto &x : junk) x = (uint8_t)rb.below(256); if (t.chance(1, 3)) memcpy(junk.data(), "OggS", std::min<size_t>(4, n)); bytes.insert(bytes.begin() + at, junk.begin(), junk.end()); md += sfmt("%zu bytes of garbage between pages; ", n); } break;
       case 7: { Span *p = pick(); if (p) { bytes[p->off + 5] &= (uint8_t)~4; md += "EOS flag removed; "; } } break;
       case 8: { if (!pg.empty() && c.links.size() > 1) { std::vector<uint8_t> cp(bytes.begin() + c.link_start[0], bytes.begin() + std::min<size_t>(bytes.size(), (size_t)c.link_end[0])); bytes.insert(bytes.end(), cp.begin(), cp.end()); md += "first link appended again (repeated serial number); "; } } break;
+      // gen 4: page-free runs longer than the 64 kB chunks the seek bisection and the backward page search step by (zeros, noise, or noise
+      // sprinkled with capture patterns), inserted at a page boundary or written over a stretch of the stream
+      case 10: { Bulk rb(t.raw() | 1); size_t at = pg.empty() ? 0 : pg[t.spread((uint32_t)pg.size())].off; size_t n = 66000 + rb.below(t.chance(1, 3) ? 200000 : 6000); int fillk = (int)t.below(3); std::vector<uint8_t> junk(n, 0);
+        if (fillk) for (auto &x : junk) x = (uint8_t)rb.below(256); if (fillk == 2) for (size_t q = 0; q + 4 < n; q += 1 + rb.below(30000)) memcpy(&junk[q], "OggS", 4);
+        bytes.insert(bytes.begin() + at, junk.begin(), junk.end()); md += sfmt("%zu page-free bytes (fill %d) inserted at %zu; ", n, fillk, at); r.label("page-free run longer than 64 kB"); } break;
+      case 11: { if (bytes.size() > 100) { size_t a = t.spread((uint32_t)bytes.size()), b = t.spread((uint32_t)bytes.size()); if (a > b) std::swap(a, b); for (size_t q = a; q < b; q++) bytes[q] = 0; md += sfmt("bytes %zu..%zu zeroed; ", a, b); } } break;
       case 9: { Span *p = pick(); if (p && p->len > 28) { size_t o2 = p->off + 27 + t.below(bytes[p->off + 26] ? bytes[p->off + 26] : 1u); bytes[o2] = (uint8_t)t.below(256); md += "lacing value edited; "; } } break;
     }
   }
